@@ -6,7 +6,7 @@
    C24_table                 the executable instance that the correspondence check runs: operator results and joins are looked up
                              in a recorded table; if every recorded entry is sound, the replayed result is sound.
    C24_add_entry / C24_sub_entry   the table hypothesis is dischargeable: an entry whose result is what the strided-interval model
-                             computes for + (for -, with an aligned subtrahend) is sound, by C21's theorems.
+                             computes for + (for -, as repaired, every subtrahend) is sound, by C21's theorems.
    The soundness of the other interval transfer functions is C21's subject and a hypothesis here. *)
 Require Import CV.Spec.BV CV.Model.PyPrelude CV.Model.Ast CV.Model.Build CV.Model.Rewrite CV.Model.AbsInt
                CV.Proofs.AstLemmas CV.Proofs.BuildSound CV.Proofs.SimpSound CV.Proofs.AbsIntSound CV.Proofs.AbsIntTable
@@ -53,7 +53,7 @@ Theorem C24_add_entry : forall a b r, wf a -> wf b -> bits a = bits b -> si_add 
 Proof. exact add_entry_ok. Qed.
 Print Assumptions C24_add_entry.
 
-Theorem C24_sub_entry : forall a b r, wf a -> wf b -> bits a = bits b -> aligned b -> si_sub a b = Ok r ->
+Theorem C24_sub_entry : forall a b r, wf a -> wf b -> bits a = bits b -> proper b -> si_sub a b = Ok r ->
   entry_ok (OSub, [], [asi a; asi b], asi r).
 Proof. exact sub_entry_ok. Qed.
 Print Assumptions C24_sub_entry.
